@@ -631,6 +631,13 @@ class RealRun:
                 # event (C02-r8-1: set_clock() kept the clock of an earlier Simulation built over the same entities)
                 run.log.append(("D", self.now.nanoseconds, event.time.nanoseconds, pid))
                 run.clock = _EntityClock(self)
+                # a handler may write into the metadata of the event it was handed (TTL / hop budgets); an event must
+                # arrive with the metadata it was scheduled with (C04-r8-2: reset() replayed pre-run events from a spec
+                # that aliased the live metadata dict, so the second run received what the first run had written)
+                md = event.context["metadata"]
+                if md.get("touched"):
+                    run.log.append(("X", "metadata-written-by-an-earlier-delivery", pid))
+                md["touched"] = True
                 action = table.get(f"{self.idx}:{event.event_type}") or {"kind": "none"}
                 k = action["kind"]
                 if k == "none":
